@@ -42,14 +42,14 @@ NONE = lambda _, n: None  # noqa
 
 PAIRS = {
     "plus-term": ("S: 'a'+ 'b';", "S: As 'b'; As: As 'a' | 'a';", {"As": [APP, ONE]}),
-    "star-term": ("S: 'a'* 'b';", "S: As0 'b'; As0: As | EMPTY; As: As 'a' | 'a';", {"As": [APP, ONE], "As0": [FIRST, EMPTYL]}),
+    "star-term": ("S: 'a'* 'b';", "S: As0 'b'; As0: As {nops} | EMPTY; As: As 'a' | 'a';", {"As": [APP, ONE], "As0": [FIRST, EMPTYL]}),
     "opt-term": ("S: 'a'? 'b';", "S: Ao 'b'; Ao: 'a' | EMPTY;", {"Ao": [FIRST, NONE]}),
     "plus-sep": ("S: A+[comma]; A: 'a';\nterminals\ncomma: ',';", "S: As; As: As ',' A | A; A: 'a';", {"As": [APPS, ONE]}),
-    "star-sep": ("S: A*[comma] 'x'; A: 'a';\nterminals\ncomma: ',';", "S: As0 'x'; As0: As | EMPTY; As: As ',' A | A; A: 'a';",
+    "star-sep": ("S: A*[comma] 'x'; A: 'a';\nterminals\ncomma: ',';", "S: As0 'x'; As0: As {nops} | EMPTY; As: As ',' A | A; A: 'a';",
                  {"As": [APPS, ONE], "As0": [FIRST, EMPTYL]}),
     "plus-nonterm": ("S: B+; B: 'a' 'b' | 'c';", "S: Bs; Bs: Bs B | B; B: 'a' 'b' | 'c';", {"Bs": [APP, ONE]}),
     "group-plus": ("S: ('a' 'b')+ 'c';", "S: Gs 'c'; Gs: Gs G | G; G: 'a' 'b';", {"Gs": [APP, ONE]}),
-    "group-choice-star": ("S: ('a' | 'b' 'c')* 'd';", "S: Gs0 'd'; Gs0: Gs | EMPTY; Gs: Gs G | G; G: 'a' | 'b' 'c';",
+    "group-choice-star": ("S: ('a' | 'b' 'c')* 'd';", "S: Gs0 'd'; Gs0: Gs {nops} | EMPTY; Gs: Gs G | G; G: 'a' | 'b' 'c';",
                           {"Gs": [APP, ONE], "Gs0": [FIRST, EMPTYL]}),
     "nested-groups": ("S: ('a' ('b' | 'c')?)+;", "S: Gs; Gs: Gs G | G; G: 'a' Ho; Ho: H | EMPTY; H: 'b' | 'c';",
                       {"Gs": [APP, ONE], "Ho": [FIRST, NONE]}),
@@ -57,11 +57,16 @@ PAIRS = {
     "shared-helper": ("S: 'a'+ 'x' 'a'+;", "S: As 'x' As; As: As 'a' | 'a';", {"As": [APP, ONE]}),
     "rule-separator": ("S: A+[Sep]; A: 'a'; Sep: ',' | ';';", "S: As; As: As Sep A | A; A: 'a'; Sep: ',' | ';';", {"As": [APPS, ONE]}),
     "opt-nonterm": ("S: B? 'c'; B: 'a' | 'a' 'b';", "S: Bo 'c'; Bo: B | EMPTY; B: 'a' | 'a' 'b';", {"Bo": [FIRST, NONE]}),
-    "star-of-group-sep": ("S: ('a' 'b')*[comma] 'x';\nterminals\ncomma: ',';", "S: Gs0 'x'; Gs0: Gs | EMPTY; Gs: Gs ',' G | G; G: 'a' 'b';",
+    "star-of-group-sep": ("S: ('a' 'b')*[comma] 'x';\nterminals\ncomma: ',';", "S: Gs0 'x'; Gs0: Gs {nops} | EMPTY; Gs: Gs ',' G | G; G: 'a' 'b';",
                           {"Gs": [APPS, ONE], "Gs0": [FIRST, EMPTYL]}),
-    "two-different-reps": ("S: 'a'* 'b'+ 'a'?;", "S: As0 Bs Ao; As0: As | EMPTY; As: As 'a' | 'a'; Bs: Bs 'b' | 'b'; Ao: 'a' | EMPTY;",
+    "two-different-reps": ("S: 'a'* 'b'+ 'a'?;", "S: As0 Bs Ao; As0: As {nops} | EMPTY; As: As 'a' | 'a'; Bs: Bs 'b' | 'b'; Ao: 'a' | EMPTY;",
                            {"As": [APP, ONE], "As0": [FIRST, EMPTYL], "Bs": [APP, ONE], "Ao": [FIRST, NONE]}),
-    "ambiguous-reps": ("S: 'a'* 'a'*;", "S: As0 As0; As0: As | EMPTY; As: As 'a' | 'a';", {"As": [APP, ONE], "As0": [FIRST, EMPTYL]}),
+    "star-then-same": ("S: A* A B; A: 'a'; B: 'b';", "S: As0 A B; As0: As {nops} | EMPTY; As: As A | A; A: 'a'; B: 'b';", {"As": [APP, ONE], "As0": [FIRST, EMPTYL]}),
+    "falsy-plus": ("S: B+ 'x' B+[comma]; B: 'a' | 'z' | 'e';\nterminals\ncomma: ',';",
+                   "S: Bs 'x' Cs; Bs: Bs B | B; Cs: Cs ',' B | B; B: 'a' | 'z' | 'e';",
+                   {"Bs": [APP, ONE], "Cs": [APPS, ONE], "B": [lambda _, n: 1, lambda _, n: 0, lambda _, n: ""]},
+                   {"B": [lambda _, n: 1, lambda _, n: 0, lambda _, n: ""]}),
+    "ambiguous-reps": ("S: 'a'* 'a'*;", "S: As0 As0; As0: As {nops} | EMPTY; As: As 'a' | 'a';", {"As": [APP, ONE], "As0": [FIRST, EMPTYL]}),
 }
 
 IMPORT_PAIR = ("import 'sub.pg' as s;\nS: s.Item+ 'x';\n", "Item: 'a'? 'b';\n",
@@ -144,18 +149,35 @@ def build(params, symbolic):
     twin = params.get("twin")
     if params["pair"] == "__import__":
         root, sub, plain, acts = IMPORT_PAIR
+        sugar_acts = None
         mk_sugar = lambda: _grammar_from(root, sub)  # noqa
     else:
-        sugar, plain, acts = PAIRS[params["pair"]]
+        pr = PAIRS[params["pair"]]
+        sugar, plain, acts = pr[0], pr[1], pr[2]
+        sugar_acts = pr[3] if len(pr) > 3 else None
         mk_sugar = lambda: Grammar.from_string(sugar)  # noqa
     if twin:
         acts = dict(acts)
         acts["As"] = [APP, ONE]  # keeps the separator: deliberately wrong expansion
-    lr_s = _try(Parser, mk_sugar())
+    skw = {"actions": sugar_acts} if sugar_acts else {}
+    lr_s = _try(Parser, mk_sugar(), **skw)
     lr_p = _try(Parser, Grammar.from_string(plain), actions=acts)
-    glr_s = GLRParser(mk_sugar())
+    glr_s = GLRParser(mk_sugar(), **skw)
     glr_p = GLRParser(Grammar.from_string(plain), actions=acts)
+    # GLR with the prefer-shifts strategies on: the documented {nops} of x* keeps both SHIFT and REDUCE
+    glr_s2 = GLRParser(mk_sugar(), prefer_shifts=True, prefer_shifts_over_empty=True, **skw)
+    glr_p2 = GLRParser(Grammar.from_string(plain), actions=acts, prefer_shifts=True, prefer_shifts_over_empty=True)
     stats = {"lr": int(bool(lr_s and lr_p))}
+    if bool(lr_s) != bool(lr_p):
+        problem = "LR Parser() constructs for the %s grammar only" % ("sugared" if lr_s else "expanded")
+
+        def hfail(w: str):
+            return problem
+
+        hfail.stats = {}
+        hfail.expect = []
+        hfail.stubs = []
+        return hfail
 
     def h(w: str):
         n = length_of(w, N)
@@ -178,6 +200,18 @@ def build(params, symbolic):
         rs, rp = results(glr_s, fs), results(glr_p, fp)
         if rs is not None and rp is not None and not same_set(rs, rp):
             return "GLR results differ: sugar %r, expansion %r" % (rs, rp)
+        try:
+            fs2 = glr_s2.parse(w)
+            r2s = results(glr_s2, fs2)
+        except parglare.SyntaxError:
+            r2s = "<SyntaxError>"
+        try:
+            fp2 = glr_p2.parse(w)
+            r2p = results(glr_p2, fp2)
+        except parglare.SyntaxError:
+            r2p = "<SyntaxError>"
+        if isinstance(r2s, str) != isinstance(r2p, str) or (isinstance(r2s, list) and isinstance(r2p, list) and not same_set(r2s, r2p)):
+            return "GLR(prefer_shifts) results differ: sugar %r, expansion %r" % (r2s, r2p)
         if lr_s and lr_p:
             try:
                 a = lr_s.parse(w)
